@@ -197,6 +197,7 @@ func (c03) Run(c *engine.Case) *engine.Result {
 		}
 		p = &ProgObs{Src: c.Src, Env: d.Env, B: map[real.Backend]*BackendObs{}}
 		for _, b := range real.Backends {
+			engine.Heartbeat()
 			bo := &BackendObs{Obs: real.Run(b, h, c.Src, d.Env)}
 			p.Execs++
 			if bo.Obs.Val != nil {
